@@ -175,8 +175,15 @@ pub fn seed(name: &str) -> World {
         }
         "twofile" => {
             let fx = m.create_file("x.arxml", V50).unwrap();
-            let fy = m.create_file("y.arxml", V49).unwrap();
             let pkgs = m.root_element().create_sub_element(ElementName::ArPackages).unwrap();
+            // a package that only the newer file has, holding an element kind that only the newer version has: copies inside it
+            // are governed by the version of that file alone (built while the newer file is the only one)
+            let n = pkgs.create_named_sub_element(ElementName::ArPackage, "n").unwrap();
+            n.create_sub_element(ElementName::Elements).unwrap().create_named_sub_element(ElementName::ApplicationInterface, "ai").unwrap();
+            let fy = m.create_file("y.arxml", V49).unwrap();
+            // the new file starts without content: the packages are shared, n stays with the newer file
+            pkgs.add_to_file(&fy).unwrap();
+            n.remove_from_file(&fy).unwrap();
             let a = pkgs.create_named_sub_element(ElementName::ArPackage, "a").unwrap();
             let b = pkgs.create_named_sub_element(ElementName::ArPackage, "a1").unwrap();
             let els = a.create_sub_element(ElementName::Elements).unwrap();
@@ -246,6 +253,12 @@ pub fn seed(name: &str) -> World {
     let mut w = World { m, other: other_model(), held: vec![], held_files: vec![] };
     w.note_handles();
     w
+}
+
+/// the lowest version of the files that contain the element (own computation from file_membership)
+pub fn own_min_version(e: &Element) -> Option<AutosarVersion> {
+    let (_, files) = e.file_membership().ok()?;
+    files.iter().filter_map(|f| f.upgrade()).map(|f| f.version()).min()
 }
 
 // ------------------------------------------------------------------------------------------------ operations
@@ -506,7 +519,7 @@ pub fn ops_for(w: &World, profile: Profile) -> Vec<Op> {
             let movable = |x: &Element| {
                 matches!(
                     x.element_name(),
-                    ElementName::ArPackage | ElementName::CanCluster | ElementName::System | ElementName::Elements | ElementName::ArPackages | ElementName::FibexElementRefConditional | ElementName::CanClusterConditional | ElementName::PhysicalChannels | ElementName::FibexElementRef
+                    ElementName::ArPackage | ElementName::CanCluster | ElementName::System | ElementName::Elements | ElementName::ArPackages | ElementName::FibexElementRefConditional | ElementName::CanClusterConditional | ElementName::PhysicalChannels | ElementName::FibexElementRef | ElementName::ApplicationInterface
                 )
             };
             for (j, o) in l.iter().enumerate() {
@@ -540,7 +553,7 @@ pub fn ops_for(w: &World, profile: Profile) -> Vec<Op> {
         }
         let movable_out = matches!(
             e.element_name(),
-            ElementName::ArPackage | ElementName::CanCluster | ElementName::System | ElementName::Elements | ElementName::ArPackages | ElementName::FibexElementRefConditional | ElementName::CanClusterConditional | ElementName::PhysicalChannels | ElementName::FibexElementRef
+            ElementName::ArPackage | ElementName::CanCluster | ElementName::System | ElementName::Elements | ElementName::ArPackages | ElementName::FibexElementRefConditional | ElementName::CanClusterConditional | ElementName::PhysicalChannels | ElementName::FibexElementRef | ElementName::ApplicationInterface
         );
         if (tree || refs) && i > 0 && movable_out {
             // the other direction: this element into every fitting place of the other model
@@ -986,6 +999,32 @@ pub fn transition_oracles(w: &World, pre: &PreState, op: &Op, out: &Outcome) -> 
             }
         }
     }
+    // C13: a copy of an element whose kind the destination permits in its own version (the lowest version of the files that
+    // contain the destination, not of all files of the model) is not refused for being invalid there
+    if let (Op::Copy(i, s) | Op::CopyAt(i, s, _), Outcome::Err(class)) = (op, out) {
+        let srcs = match s {
+            Src::Live(j) => pre.live.get(*j).cloned(),
+            Src::Foreign(j) => live(&w.other).get(*j).cloned(),
+        };
+        if let (Some(srce), Some(dst)) = (srcs, pre.live.get(*i)) {
+            if class.contains("InvalidSubElement") || class.contains("ElementInsertionConflict") {
+                if let Some(v) = own_min_version(dst) {
+                    let names: Vec<ElementName> = dst.sub_elements().map(|c| c.element_name()).collect();
+                    let mut fits_somewhere = false;
+                    for pos in 0..=names.len() {
+                        let mut n2 = names.clone();
+                        n2.insert(pos, srce.element_name());
+                        if dst.element_type().find_sub_element(srce.element_name(), v as u32).is_some() && crate::props::c07::valid_children(dst.element_type(), v, &n2) {
+                            fits_somewhere = true;
+                        }
+                    }
+                    if fits_somewhere && matches!(op, Op::Copy(..)) {
+                        f.push(fd("C13", "copy|refused-although-the-destination-permits-the-element-in-its-version", format!("{} into {} ({v:?}): {class}", srce.element_name(), dst.element_name())));
+                    }
+                }
+            }
+        }
+    }
     if let Outcome::Ok(_) = out {
         // C06: references follow their target through rename and same-model move
         let moved: Option<Element> = match op {
@@ -1072,7 +1111,7 @@ pub fn transition_oracles(w: &World, pre: &PreState, op: &Op, out: &Outcome) -> 
             if let Some(srce) = srcs {
                 let a = snapshot(copy);
                 // expected content: the source, minus what is not permitted in the destination's version
-                let dest_version = copy.min_version().unwrap_or(AutosarVersion::LATEST);
+                let dest_version = own_min_version(copy).unwrap_or(AutosarVersion::LATEST);
                 // judged by the type the element has at the destination in the destination's version
                 let dest_type = copy
                     .parent()
